@@ -41,7 +41,12 @@ impl TrySend for ZmqFramedWrite {
         match self.as_mut().poll_ready(&mut cx) {
             Poll::Ready(Ok(())) => {
                 self.as_mut().start_send(item)?;
-                let _ = self.as_mut().poll_flush(&mut cx); // ignore result just hope that it flush eventually
+                // Pending is fine (it will be flushed by a later call), but a write error
+                // means the connection is broken: report it so that the caller can drop the
+                // peer instead of buffering for it until the high-water mark is reached.
+                if let Poll::Ready(Err(e)) = self.as_mut().poll_flush(&mut cx) {
+                    return Err(e.into());
+                }
                 Ok(())
             }
             Poll::Ready(Err(e)) => Err(e.into()),
